@@ -261,7 +261,7 @@ PROPS = {
         "outside": ["YAML matchers (goccy/go-yaml)"],
     },
     "selftest": {
-        "runs": [{"harness": "H_selftest"}],
+        "runs": [{"harness": "H_selftest"}, {"harness": "H_selftest_regexp"}, {"harness": "H_selftest_lib"}],
         "bounds": {"quick": "10 texts x ~35 library functions", "thorough": "same"},
         "assumptions": [],
         "outside": [],
